@@ -25,8 +25,8 @@ ASSUMPTIONS = [
     'Rp+dz0/2+z_j+dz_j/2; new: shells at layer boundaries, tangent at mid-layer); a re-discretisation must update them',
     'the oracle takes each contribution\'s prepared per-layer sigma as input (its correctness is C03/C04/C19)',
 ]
-_Q = {'abs': 120, 'mono': 25, 'big': 4, 'long': 2, 'rerun': 60, 'several': 30, 'components': 25}
-_T = {'abs': 2500, 'mono': 600, 'big': 60, 'long': 30, 'rerun': 1200, 'several': 500, 'components': 400}
+_Q = {'abs': 120, 'mono': 25, 'big': 4, 'long': 2, 'sweep': 1, 'rerun': 60, 'several': 30, 'components': 25}
+_T = {'abs': 2500, 'mono': 600, 'big': 60, 'long': 30, 'sweep': 8, 'rerun': 1200, 'several': 500, 'components': 400}
 BUDGET = {
     'quick': [dict(name='boundscheck', env={'NUMBA_BOUNDSCHECK': '1'}, shards=4, cases=_Q)],
     'thorough': [dict(name='boundscheck', env={'NUMBA_BOUNDSCHECK': '1'}, shards=16, cases=_T),
@@ -40,7 +40,7 @@ REQUIRED = dict(monitors=['chords', 'exp(-tau)', 'depth', 'depth>=bare', 'depth<
                          'contrib:FlatMie', 'contrib:LeeMie', 'nlayers:2', 'rerun:evaluated-after-change',
                          'fault:fired:temperature', 'fault:fired:chemistry', 'fault:fired:contribution', 'fault:fired:pressure',
                          'several:evaluation-judged', 'wn-dtype:i', 'components:judged', 'T-route:mixin', 'chemistry:makefree+file',
-                         'rerun:deepcopy', 'rerun:original-judged-after-its-copy-was-used', 'components:live-model-judged', 'rerun:planet-radius-given-in-other-units', 'grid:thousands-of-points'])
+                         'rerun:deepcopy', 'rerun:original-judged-after-its-copy-was-used', 'components:live-model-judged', 'rerun:planet-radius-given-in-other-units', 'grid:thousands-of-points', 'history:one-model-dozens-of-geometries-earlier-ones-again'])
 TOL = 1e-10
 CUT = float(np.exp(-10.0))
 
@@ -479,6 +479,49 @@ def wl_rerun(ctx, rng):
     ctx.sample({'workload': 'rerun', 'world': world.spec_summary(spec), 'changes': changes_all})
 
 
+def wl_sweep(ctx, rng):
+    """A long history on ONE model object (a parameter scan, a retrieval): dozens to hundreds of evaluations with the planet
+    mass (and so the whole altitude grid) changing every time, earlier values coming back in between and at the end.  Every
+    evaluation is judged by the oracle for the atmosphere the model has at that moment."""
+    from taurex.exceptions import InvalidModelException
+    spec = make_case(rng, nlayers=int(rng.choice([2, 3, 5])), nwn=int(rng.integers(3, 8)))
+    observe_case(ctx, spec)
+    model = realise(spec)
+    snap = run_model(ctx, model)
+    if snap is None:
+        return
+    oracle(ctx, snap, spec)
+    m0 = float(model['planet_mass'])
+    n = int(rng.integers(60, 100)) if ctx.tier == 'quick' else int(rng.integers(150, 500))
+    values = [m0 * float(rng.uniform(1.0, 1.8)) for _ in range(n)]
+    seq = []
+    for j, v in enumerate(values):
+        seq.append(v)
+        if j % 4 == 3:
+            seq.append(values[int(rng.integers(0, max(j // 2, 1)))])
+    seq += [values[int(k)] for k in rng.integers(0, n // 3, 10)]
+    judged = 0
+    for v in seq:
+        model['planet_mass'] = v
+        _state['snap'] = None
+        try:
+            wn, depth, trans, _ = model.model()
+        except InvalidModelException as e:
+            ctx.license(type(e).__name__)
+            continue
+        s2 = _state['snap']
+        _state['snap'] = None
+        if s2 is None or not np.all(np.isfinite(s2['zb'])) or s2['zb'][-1] > 2.0 * s2['Rp']:
+            ctx.event('domain-skip:perturbed-atmosphere-unbound')
+            continue
+        s2['wn'], s2['depth'], s2['ret_trans'] = np.array(wn), np.array(depth, dtype=float), np.array(trans, dtype=float)
+        oracle(ctx, s2, spec)
+        judged += 1
+    if judged > 50:
+        ctx.observe('history:one-model-dozens-of-geometries-earlier-ones-again')
+    ctx.sig('sweep', spec['nlayers'], spec['new_method'], spec['magnitude'], len(seq), round(spec['planet_mass'], 6))
+
+
 def build_more(spec):
     """Another model on the world that is already installed in the caches (no reset)."""
     model = world.build_model(spec, 'transmission', new_path_method=spec['new_method'])
@@ -535,7 +578,7 @@ def wl_components(ctx, rng):
     ctx.observe('components:judged')
 
 
-WORKLOADS = {'abs': wl_abs, 'mono': wl_mono, 'big': wl_big, 'long': wl_long, 'rerun': wl_rerun, 'several': wl_several,
+WORKLOADS = {'abs': wl_abs, 'mono': wl_mono, 'big': wl_big, 'long': wl_long, 'sweep': wl_sweep, 'rerun': wl_rerun, 'several': wl_several,
              'components': wl_components}
 
 LEVEL_TEXT = ('Exploration by runtime monitoring: every TransmissionModel.path_integral call made by the workload is '
